@@ -136,7 +136,7 @@ def tlc(module, cfg, workers=None, simulate=None, depth=None, seed=None, coverag
     txt = "\n".join(errbuf)
     if r.rc == 124:
         r.error = "timeout after %ss" % timeout
-    elif "is violated" in txt or "Temporal properties were violated" in txt or "Deadlock reached" in txt \
+    elif "violated" in txt or "Deadlock reached" in txt \
             or "Action property" in txt:
         r.violation = txt
     elif r.rc != 0:
